@@ -173,4 +173,4 @@ def run(c):
 
 if __name__ == '__main__':
     payload = json.load(open(sys.argv[1]))
-    json.dump([run(c) for c in payload['cases']], open(sys.argv[2], 'w'))
+    json.dump([run(c) for c in payload['cases']], open(sys.argv[2], 'w'), default=lambda o: {'object': type(o).__name__})
